@@ -1345,6 +1345,26 @@ cdef class ParticleArray:
 
         """
         cdef BaseArray src_array, dst_array
+        cdef long np = self.get_number_of_particles()
+        cdef long ns = source.get_number_of_particles()
+
+        if end_index < 0:
+            # Make the default range explicit and count it in particles:
+            # the carrays take it from their number of values, which
+            # overruns both buffers for properties with a stride.
+            if start_index < 0:
+                if ns != np:
+                    raise ValueError(
+                        'Source length should be same as dest length')
+                if np == 0:
+                    return
+                start_index = 0
+            elif start_index > np - 1:
+                raise ValueError('start_index beyond array length')
+            end_index = np
+        if end_index - start_index > ns:
+            raise ValueError('Not enough values in source')
+
         for prop_name in source.properties:
             if prop_name in self.properties:
                 src_array = source.get_carray(prop_name)
